@@ -713,9 +713,44 @@ pub fn g_mix(s: &mut Src) -> (Pos, &'static str) {
     }
 }
 
+/// Endings in which a pawn is about to promote next to the kings: the family where the choice of
+/// the promotion piece matters (a queen stalemates, a rook or knight wins or mates) and where
+/// promotions, captures of the promoted piece and stalemates sit one or two plies from the root.
+pub fn g_promotion_ending(s: &mut Src) -> Pos {
+    for _ in 0..8 {
+        let mut p = Pos::empty();
+        let white = s.bool();
+        let (us, them) = if white { (Color::W, Color::B) } else { (Color::B, Color::W) };
+        let pf = s.below(8) as i32;
+        let pr = if white { 6 } else { 1 };
+        put(&mut p, pf, pr, (us, Kind::P));
+        // enemy king within two files of the promotion square, on its first or second rank
+        let kf = (pf + s.range(-2, 2) as i32).clamp(0, 7);
+        let kr = if white { 7 - s.below(2) as i32 } else { s.below(2) as i32 };
+        if !put(&mut p, kf, kr, (them, Kind::K)) {
+            continue;
+        }
+        // our king close by
+        let of = (pf + s.range(-2, 2) as i32).clamp(0, 7);
+        let or = if white { 4 + s.below(3) as i32 } else { 3 - s.below(3) as i32 };
+        if !put(&mut p, of, or, (us, Kind::K)) {
+            continue;
+        }
+        p.stm = if s.chance(75) { us } else { them };
+        let padn = s.below(3);
+        pad(s, &mut p, padn);
+        repair(&mut p);
+        if p.is_valid() {
+            return p;
+        }
+    }
+    g_place(s, 3)
+}
+
 /// Small positions for search properties (bounded quiescence trees).
 pub fn g_small(s: &mut Src) -> (Pos, &'static str) {
-    match s.weighted(&[45, 30, 15, 10]) {
+    match s.weighted(&[42, 28, 14, 9, 7]) {
+        4 => (g_promotion_ending(s), "promotion-ending"),
         0 => {
             let n = 1 + s.below(6);
             (g_place(s, n), "endgame<=8")
